@@ -12,7 +12,9 @@ Inventory: the local inventory is populated only from public repositories.
 A filter closure may return true only because the document said so or because the
 announcement is not a refs announcement (never because a lookup failed); the
 inventory announcement built at start-up uses the routing table only after the
-private repositories were removed from it."""
+private repositories were removed from it.  The document the fetch worker hands back
+(used for the visibility of the post-fetch refs announcement) is loaded after the
+identity head was recomputed, which happens after every successful fetch."""
 import re
 
 from .. import cfg, rules, flow
